@@ -6,7 +6,7 @@
     database (`junk`; the zero-length file `junk []` is special: SQLite opens it as a database
     without any object), a truncated database file (`trunc`, what a half-finished
     `shutil.copy` leaves), or an SQLite database abstracted to
-    (schema objects, rows of `version`, opaque payload rows per table, foreign-key flag).
+    (schema objects, rows of `version`, uninterpreted payload rows per table, foreign-key flag).
   * Every entry point of `database.py` is a LIST OF ATOMIC STEPS.  A machine state holds the
     directory (= everything that is durable), the open connection with the working copy of an
     open transaction (volatile), the Python local `version`, and the steps still to run.
@@ -47,7 +47,7 @@ inductive VerVal where
   | text (s : String)
   deriving DecidableEq, Repr, Inhabited
 
-/-- an opaque payload row (the harness passes a digest of the table's rows) -/
+/-- an uninterpreted payload row (the harness passes a digest of the table's rows) -/
 abbrev Row := String
 
 /-- an SQLite database file, abstracted -/
@@ -143,7 +143,7 @@ def parseNatAux : List Char → Nat → Option Nat
     | some v => parseNatAux r (acc * 10 + v)
     | none => none
 
-/-- the decimal literal of an `insert` statement (the translator only admits `\d+`) -/
+/-- the decimal literal of an `insert` statement (the translator only allows `\d+`) -/
 def parseNat (s : String) : Option Nat :=
   match s.toList with
   | [] => none
